@@ -172,7 +172,16 @@ def arm_shards():
 
 
 def t16_shards():
-    return [('T16/%02x' % op, [(15, 8, op)]) for op in range(0, 0xE8) if (op >> 3) not in (0b11101, 0b11110, 0b11111)]
+    out = []
+    for op in range(0, 0xE8):
+        if (op >> 3) in (0b11101, 0b11110, 0b11111):
+            continue
+        if (op >> 4) == 0xC or op in (0xB4, 0xB5, 0xBC, 0xBD):  # LDM/STM/PUSH/POP: 8-bit register list
+            out.append(('T16/%02x/list-r0-3' % op, [(15, 8, op), (7, 4, 0)]))
+            out.append(('T16/%02x/list-r4-7' % op, [(15, 8, op), (3, 0, 0)]))
+        else:
+            out.append(('T16/%02x' % op, [(15, 8, op)]))
+    return out
 
 
 def t32_shards():
